@@ -28,6 +28,19 @@ Definition status_of (e : serr) : nat :=
   | E_BadToken => 400      (* after fix D12 (was 500) *)
   end.
 
+(* protoTuplesWithAction: the deltas of one action, decoded with FromDataProvider *)
+Definition transact_tuples (a : action) (ds : list (action * ptuple)) : res (list tuple) :=
+  fold_right (fun (x : action * ptuple) (acc : res (list tuple)) =>
+                match fst x, a with
+                | AInsert, AInsert | ADelete, ADelete =>
+                  match tuple_from_data_provider (snd x), acc with
+                  | Ok t, ROk l => ROk (t :: l)
+                  | Ok _, RErr e => RErr e
+                  | _, _ => RErr E_NilSubject
+                  end
+                | _, _ => acc
+                end) (ROk []) ds.
+
 Section Handlers.
 Variable names : list bytes.     (* configured namespaces *)
 Variable nid : N.                (* network of the serving registry *)
@@ -118,19 +131,8 @@ Definition step (d : db) (o : op) : db * resp :=
        r_status (match r with ROk _ => 204 | RErr e => status_of e end))
     end
   | OpTransact ds =>
-    let conv (a : action) :=
-      fold_right (fun (x : action * ptuple) (acc : res (list tuple)) =>
-                    match fst x, a with
-                    | AInsert, AInsert | ADelete, ADelete =>
-                      match tuple_from_data_provider (snd x), acc with
-                      | Ok t, ROk l => ROk (t :: l)
-                      | Ok _, RErr e => RErr e
-                      | _, _ => RErr E_NilSubject
-                      end
-                    | _, _ => acc
-                    end) (ROk []) ds in
     (* protoTuplesWithAction stops at the FIRST failing delta of that action; any failure is the same class *)
-    match conv AInsert, conv ADelete with
+    match transact_tuples AInsert ds, transact_tuples ADelete ds with
     | ROk ins, ROk del =>
       let '(d', r) := tx_write (ins ++ del)
                         (fun its sh => transact_stmts nid sh (firstn (length ins) its) (skipn (length ins) its))
@@ -162,5 +164,9 @@ Definition step (d : db) (o : op) : db * resp :=
   end.
 End Handlers.
 
-Definition run (names : list bytes) (nid : N) (ops : list op) (d : db) : db * list resp :=
-  fold_left (fun acc o => let '(d', r) := step names nid no_faults (fst acc) o in (d', snd acc ++ [r])) ops (d, []).
+Fixpoint run (names : list bytes) (nid : N) (ops : list op) (d : db) : db * list resp :=
+  match ops with
+  | [] => (d, [])
+  | o :: r => let '(d1, x) := step names nid no_faults d o in
+              let '(d2, xs) := run names nid r d1 in (d2, x :: xs)
+  end.
